@@ -23,7 +23,8 @@ MANIFEST = {
             "C01_fixed_point_shipped instantiate C01 with it; C07_fresh_of_template is the generic theorem (any template of the block grammar with "
             "in_grammar07 and distinct keys), C07_tags_consumed_shipped(_user) the generator-tag half for every shipped file inside the C16 grammar "
             "(C07_shipped_files_in_grammar: Test.TEMPLATEStateMachine.cpp, TEMPLATEInternals.cs, Test.TEMPLATEStateMachine.cs, TEMPLATEReceiver.h/.cpp, "
-            "TEMPLATETransmitter.h/.cpp; files with user-tag lines outside blocks under the computed user_lines_closed). "
+            "TEMPLATETransmitter.h/.cpp, and -- with the events' signature strings as an interface oracle of the element record -- TEMPLATEStateMachine.py "
+            "and TEMPLATEStateMachine.h, whose real outputs are compared as whole files with ref16 (d16.shipped_ref, oracle from the real Language object); files with user-tag lines outside blocks under the computed user_lines_closed). "
             "C07_wf_out_Test_TEMPLATEStateMachine_cs / C07_fixed_point_shipped_cs / C01_fixed_point_shipped_cs: both halves for the shipped "
             "Test.TEMPLATEStateMachine.cs (names_ok_cs = names_ok + no guard named like a state hook On<State>Entry/Exit; user_lines_plain for the "
             "assignment), evaluated on every cs case (d07.names_ok_shipped_cs) with wf_fresh_file on the real lines; real = extracted model for the "
@@ -203,6 +204,40 @@ def engine_tie(ctx, kind, table, iface, desc):
             ctx.tie_broken("correspondence: real %s vs EngineSM.generate" % tname, dict(desc, file=tname, real=real, model=model))
 
 
+WHOLE = {"cpp": ("statemachine_templates_embedded_arm", ["TEMPLATEStateMachine.h"]), "py": ("statemachine_templates_py", ["TEMPLATEStateMachine.py"])}
+
+
+def whole_file_tie(ctx, kind, table, iface, desc):
+    """shipped files that are whole files of the C16 grammar WITH the signature oracle: the real generator's text = ref16 of the file
+    (Parse16.shipped_ref), the oracle read from the real Language object"""
+    if not ctx.km or kind not in WHOLE:
+        return
+    from .. import engine_e2e as e2e
+    tdir, names = WHOLE[kind]
+    with scratch() as d:
+        try:
+            kj.generate(kind, os.path.join(d, "o"), table=[list(r) for r in table], iface=iface, name="X")
+        except Exception as e:  # noqa
+            return
+        tree = read_tree(os.path.join(d, "o"))
+    structs, protos, msgs = list(iface.StructNames()), list(iface.ProtocolStructNames()), list(iface.MessageNames())
+    sigs = e2e.event_sigs(iface, kind, table)
+    ut = [[k, "" if v is None else str(v)] for k, v in iface.UserTags().items()]
+    for tname in names:
+        with open(os.path.join(kj.REPO, "kojen", tdir, tname), newline="") as f:
+            lines = f.read().split("\n")
+        lines = [l + "\n" for l in lines[:-1]] + ([lines[-1]] if lines[-1] else [])
+        rows = [list(r) for r in table]
+        if ctx.km.call("d16.shipped_wf", lines, rows, structs, protos, msgs, sigs, ut) != b"1":
+            ctx.count("whole_file_outside_domain_" + tname)
+            continue
+        ref = ctx.km.call("d16.shipped_ref", lines, rows, structs, protos, msgs, sigs, ut)
+        real = tree.get(tname.replace("TEMPLATE", "X"))
+        ctx.count("whole_file_compared_" + tname)
+        if not ref or real is None or ref[0].decode("utf-8", "surrogateescape") != real.decode("utf-8", "surrogateescape"):
+            ctx.tie_broken("whole file: real %s vs ref16 of the shipped template with the signature oracle" % tname, dict(desc, file=tname))
+
+
 def run(ctx):
     for p in sorted(glob.glob(os.path.join(VERIF, "corpus", "C07", "*.json"))):
         data = unjson(json.load(open(p)))
@@ -229,6 +264,7 @@ def run(ctx):
             ctx.count("random_" + kind)
             if kind in ("cpp", "cs"):
                 engine_tie(ctx, kind, t, kj.events_interface(random.Random(seed), t, kind, ut), {"table": t, "iface_seed": seed})
+            whole_file_tie(ctx, kind, t, kj.events_interface(random.Random(seed), t, kind, ut), {"table": t, "iface_seed": seed})
             if i == 0:
                 ctx.sample({"kind": kind, "table": t, "usertags": ut})
     for i in range(n):
